@@ -292,7 +292,13 @@ func shardsCase(tp *core.Tape, e *core.Env) {
 	wants := make([]want, n)
 	for i := 0; i < n; i++ {
 		p := corev1.Pod{ObjectMeta: metav1.ObjectMeta{Name: fmt.Sprintf("%s-%d", name, i), Namespace: ns, Labels: map[string]string{"sts": name}}}
-		switch tp.Weighted("pod_state", 4, 1, 1) {
+		switch tp.Weighted("pod_state", 4, 1, 1, 1) {
+		case 3: // being deleted (eviction, drain) but still there with its IP
+			now := metav1.Now()
+			p.DeletionTimestamp = &now
+			p.Status.PodIP = fmt.Sprintf("10.0.0.%d", i+1)
+			wants[i] = want{p.Status.PodIP, -1}
+			e.Fault("pod_terminating")
 		case 0:
 			p.Status.PodIP = fmt.Sprintf("10.0.0.%d", i+1)
 			p.Status.Conditions = []corev1.PodCondition{{Type: corev1.PodReady, Status: corev1.ConditionTrue}}
